@@ -937,9 +937,9 @@ fn ix_allpairs(w: &W) -> Verdict {
 
 /// Every partition of one tiny FASTA file into read() chunks, for one fetched interval: the
 /// quantifier "forall fragmentations of read() results" decided exhaustively for files of up to
-/// 14 (thorough: 18) bytes.
+/// 14 (thorough: 16) bytes.
 fn ix_partitions(w: &W) -> Verdict {
-    let limit = if crate::world::thorough() { 18 } else { 14 };
+    let limit = if crate::world::thorough() { 16 } else { 14 };
     let mut f = gen_file(w, Scale::Small, 2, 6);
     // files above the limit are skipped (the sweep is exponential in the file length)
     if f.bytes.len() > limit {
